@@ -53,6 +53,11 @@
 (*     (decimal value / float value / source text / quotedness) and Same    *)
 (*     requires each of them to be a fact of the source token (SubRec).     *)
 (*     An UpdateMask value names fields as <TYPE>_<NAME>.                   *)
+(* Object tags compared (tags.md and the tags the corpus uses): comment,     *)
+(* versions, compressed, non_network_type, used_in_update_mask,             *)
+(* unimplemented, zero_is_always_valid, test.  The published schema has no  *)
+(* place for the last two, so Abs reads them as absent = false and an       *)
+(* object carrying one of them is reported (tags.zero_is_always_valid).     *)
 (* Not compared (not listed by the property): sizes, file_info (only used   *)
 (* to pick the candidate a difference is explained against), used_in_if,    *)
 (* used_as_size_in, objects_used_in, only_has_io_error, has_manual_size_    *)
@@ -119,13 +124,15 @@ NormOTags(t) == [comment |-> JoinNL(Get(t, "comment", <<>>)),
                  non_network_type |-> TagTrue(t, "non_network_type"),
                  used_in_update_mask |-> TagTrue(t, "used_in_update_mask"),
                  unimplemented |-> TagTrue(t, "unimplemented"),
-                 zero_is_always_valid |-> TagTrue(t, "zero_is_always_valid")]
+                 zero_is_always_valid |-> TagTrue(t, "zero_is_always_valid"),
+                 test |-> TagTrue(t, "test")]
 AbsOTags(t) == [comment |-> Get(t, "comment", ""),
                 compressed |-> Get(t, "compressed", FALSE),
                 non_network_type |-> Get(t, "non_network_type", FALSE),
                 used_in_update_mask |-> Get(t, "used_in_update_mask", FALSE),
                 unimplemented |-> Get(t, "unimplemented", FALSE),
-                zero_is_always_valid |-> Get(t, "zero_is_always_valid", FALSE)]
+                zero_is_always_valid |-> Get(t, "zero_is_always_valid", FALSE),
+                test |-> Get(t, "test", FALSE)]
 (* member / enumerator tags; valid_range = "from to" *)
 NormMTags(t) == [comment |-> JoinNL(Get(t, "comment", <<>>)),
                  display |-> JoinNL(Get(t, "display", <<>>)),
